@@ -210,3 +210,10 @@ Proof. reflexivity. Qed.
 Lemma pin_src_CheckLabelProperty : Gen_C10.src_CheckLabelProperty =
   "{ v1 := o.labelProperty.Load().(LabelPropertyConfig) for _, v2 := range v1[typ] { for _, v3 := range labels { if v3.Key == v2.Key && v3.Value == v2.Value { return true } } } return false }".
 Proof. reflexivity. Qed.
+
+(* RuleChecker.strategy: the isolation level handed to the ReplicaStrategy is the rule's own, and for the default rule pd/default
+   with none of its own the configured replication.isolation-level (repair 55be6a2).  The case files print a rule with exactly that
+   effective level (harness gen10.coqRule computes it from the case specification, not from the code under check). *)
+Lemma pin_src_rule_strategy : Gen_C10.src_rule_strategy =
+  "{ v1 := rule.IsolationLevel if v1 == """" && rule.GroupID == ""pd"" && rule.ID == ""default"" { v1 = c.cluster.GetOpts().GetIsolationLevel() } return &ReplicaStrategy{ checkerName: c.name, cluster: c.cluster, v1: v1, locationLabels: rule.LocationLabels, region: region, extraFilters: []filter.Filter{filter.NewLabelConstaintFilter(c.name, rule.LabelConstraints)}, } }".
+Proof. reflexivity. Qed.
